@@ -114,10 +114,18 @@ def tail_feature(case):
     return "subpage-tail=" + ("both" if s and r else "send" if s else "recv" if r else "none")
 
 
-def judge(case, rcls, scls):
-    """-> list of (rule, features, text).  rcls/scls: class->intervals of the receive / send buffer after the transfer."""
+def covered(cls):
+    """Upper end of what a (possibly truncated) dump describes."""
+    return max([b for v in cls.values() for _, b in v] or [0])
+
+
+def judge(case, rcls, scls, rcover=None, scover=None):
+    """-> list of (rule, features, text).  rcls/scls: class->intervals of the receive / send buffer after the transfer.
+    rcover/scover: when a dump was truncated by the harness, only bytes below this offset are judged."""
     out = []
     must_copy, must_keep = required(case)
+    if rcover is not None:
+        must_copy, must_keep = inter(must_copy, [(0, rcover)]), inter(must_keep, [(0, rcover)])
     got_s, got_g = rcls.get("S", []), rcls.get("G", [])
     miss = minus(must_copy, got_s)
     if miss:
@@ -141,6 +149,8 @@ def judge(case, rcls, scls):
         out.append(("guard", "recv:" + tail_feature(case), "%d private bytes of the receive buffer outside the message were modified; first range [%d,%d)"
                     % (total(bad_guard), bad_guard[0][0], bad_guard[0][1])))
     spriv_all = private(case["ssize"], case["sshared"])
+    if scover is not None:
+        spriv_all = inter(spriv_all, [(0, scover)])
     bad_src = minus(spriv_all, scls.get("O", []))
     if bad_src:
         out.append(("guard", "send:" + tail_feature(case), "%d private bytes of the send buffer were modified by the transfer; first range [%d,%d)"
